@@ -44,8 +44,12 @@ func ParseBucketLockConfigurationInput(input []byte) ([]byte, error) {
 		return nil, s3err.GetAPIError(s3err.ErrMalformedXML)
 	}
 
+	// object lock cannot be switched off once a bucket has been created
+	// with it: a configuration without ObjectLockEnabled only replaces
+	// the default retention rule (the backend accepts a configuration
+	// only for a bucket that is lock enabled)
 	config := BucketLockConfig{
-		Enabled: lockConfig.ObjectLockEnabled == types.ObjectLockEnabledEnabled,
+		Enabled: true,
 	}
 
 	if lockConfig.Rule != nil && lockConfig.Rule.DefaultRetention != nil {
